@@ -233,3 +233,69 @@ def const_str(e) -> Optional[str]:
     if isinstance(e, ast.Constant) and isinstance(e.value, str):
         return e.value
     return None
+
+
+def must_atoms(fx: 'FuncFacts'):
+    """Forward must-analysis over the CFG: for every node the set of atoms (kind, a, b, positive) that hold on
+    *all* paths reaching it.  Atoms are generated on test edges and killed when a name they mention is rebound
+    (or, for membership/emptiness atoms, when the named container is mutated by a method call in a statement)."""
+    if hasattr(fx, '_must'):
+        return fx._must
+    cfg = fx.cfg
+    TOP = None
+    state = {n: TOP for n in cfg.nodes()}
+    state[cfg.entry] = frozenset()
+
+    def kill(atoms, node):
+        st = node.stmt
+        if st is None:
+            return atoms
+        rebound = assigned_names(st) if node.kind in ('stmt', 'for', 'with', 'def') else set()
+        mutated = set()
+        if node.kind == 'stmt':
+            for c in ast.walk(st):
+                if isinstance(c, ast.Call) and isinstance(c.func, ast.Attribute) and isinstance(c.func.value, ast.Name) \
+                        and c.func.attr in ('add', 'remove', 'discard', 'pop', 'clear', 'update', 'append', 'extend', 'insert'):
+                    mutated.add(c.func.value.id)
+            if isinstance(st, ast.Assign):
+                for t in st.targets:
+                    if isinstance(t, ast.Subscript) and isinstance(t.value, ast.Name):
+                        mutated.add(t.value.id)
+            if isinstance(st, ast.AugAssign):
+                t = st.target
+                if isinstance(t, ast.Name):
+                    rebound.add(t.id)
+                if isinstance(t, ast.Subscript) and isinstance(t.value, ast.Name):
+                    mutated.add(t.value.id)
+        if not rebound and not mutated:
+            return atoms
+        out = set()
+        for a in atoms:
+            names = FuncFacts._atom_names(a)
+            if names & rebound:
+                continue
+            if a[0] in ('in', 'empty', 'truthy', 'disjoint', 'lencmp') and names & mutated:
+                continue
+            out.add(a)
+        return frozenset(out)
+
+    work = [cfg.entry]
+    while work:
+        n = work.pop()
+        cur = state[n]
+        node = cfg.node[n]
+        after = kill(cur, node)
+        for (s, lab) in cfg.succ[n]:
+            out = after
+            if node.kind in ('test', 'assert') and lab in (True, False):
+                gen = [a for a in atoms_of(node.expr, lab) if a[0] != 'or']
+                out = frozenset(set(after) | set(gen))
+            if lab == 'exc':
+                out = cur
+            old = state[s]
+            new = out if old is TOP else (old & out)
+            if old is TOP or new != old:
+                state[s] = new
+                work.append(s)
+    fx._must = {n: (v if v is not None else frozenset()) for n, v in state.items()}
+    return fx._must
